@@ -334,6 +334,10 @@ def make_async_fn(fn):
                     await asyncio.sleep(d)
             if fn.fail and idx_of(x) in fn.fail['idx']:
                 _raise(fn.fail['exc'], x)
+            if fn.none and idx_of(x) in fn.none['idx']:
+                return None
+            if fn.ret_exc and idx_of(x) in fn.ret_exc['idx']:
+                return make_exc(fn.ret_exc['exc'], x)
             return x + fn.add
         finally:
             fn.running -= 1
